@@ -8,6 +8,7 @@ mod img_streams;
 mod geom;
 mod sectorops;
 mod cross;
+mod codec;
 mod fsck;
 mod fsrun;
 mod fsckrun;
@@ -39,6 +40,7 @@ fn dispatch(toks: &[&str]) -> String {
         "enc62" | "enc53" | "dec62" | "dec53" | "trk" => img_streams::dispatch(toks),
         "sectorops" => sectorops::run(toks),
         "dpbinfo" => { let d = a2kit::bios::dpb::DiskParameterBlock::create(&geom::kind_of(toks[2])); format!("{} {} {} {} {} {}",d.bsh,d.off,d.dsm,d.drm,d.exm,d.spt) },
+        "crc32" | "crc16" | "imdtrk" | "codec" => codec::dispatch(toks),
         "cells" => cross::cells(toks),
         "cross" => cross::cross(toks),
         "fsh" => fsrun::run(toks),
